@@ -19,6 +19,17 @@ const TWO_PI: f64 = std::f64::consts::PI * 2.0;
 
 thread_local! {
     static EVALS: Cell<u64> = const { Cell::new(0) };
+    static ITER_SCRIPTS: Cell<u64> = const { Cell::new(0) };
+    static FIELD_ROUTES: Cell<u64> = const { Cell::new(0) };
+}
+fn flush_tl(rep: &mut Report) {
+    rep.eval(EVALS.with(|c| c.replace(0)));
+    for (c, name) in [(&ITER_SCRIPTS, "iterator_conformance_scripts"), (&FIELD_ROUTES, "windower_state_set_through_public_fields")] {
+        let n = c.with(|c| c.replace(0));
+        if n > 0 {
+            rep.hit_n(name, n);
+        }
+    }
 }
 fn ev(n: u64) {
     EVALS.with(|c| c.set(c.get() + n));
@@ -135,8 +146,26 @@ where
     let fname = <F::Sample as AnyS>::NAME;
     let frames: Vec<F> = (0..l).map(|i| F::from_fn(|c| <F::Sample as AnyS>::distinct((i * F::CHANNELS + c) as u64))).collect();
     let want_chunks = if l >= b { (l - b) / h + 1 } else { 0 };
-    let mut wr: Windower<F, W> = Windower::new(&frames[..], b, h);
-    let _ = route;
+    // route 0: constructed with (frames, bin, hop). Routes 1/2 reach the same state through the
+    // documented public fields: constructed with other values, then `bin`/`hop` (1) or `frames`
+    // (2) assigned - everything below must not be able to tell the difference.
+    let mut wr: Windower<F, W> = match route {
+        0 => Windower::new(&frames[..], b, h),
+        1 => {
+            let mut w = Windower::new(&frames[..], b + 3, if h < usize::MAX - 2 { h + 2 } else { h - 2 });
+            w.bin = b;
+            w.hop = h;
+            w
+        }
+        _ => {
+            let mut w = Windower::new(&frames[..0], b, h);
+            w.frames = &frames[..];
+            w
+        }
+    };
+    if route != 0 {
+        FIELD_ROUTES.with(|c| c.set(c.get() + 1));
+    }
     let weights: Vec<F::Float> = Window::<F::Float, W>::new(b).take(b).collect();
     let mut k = 0usize;
     loop {
@@ -199,6 +228,27 @@ fn windower_all_inner(rep: &mut Report, l: usize, b: usize, h: usize) {
     check_windower::<[f32; 2], Rectangle>(rep, l, b, h, 0);
     check_windower::<[i16; 2], Hann>(rep, l, b, h, 0);
     check_windower::<[i16; 2], Rectangle>(rep, l, b, h, 0);
+    if (l + b + h % 2) % 2 == 0 {
+        check_windower::<f64, Hann>(rep, l, b, h, 1);
+        check_windower::<[f32; 2], Hann>(rep, l, b, h, 2);
+        check_windower::<[i16; 2], Rectangle>(rep, l, b, h, 1);
+    }
+    // iterator protocol of the three window iterators (nth / fold / count / last / skip /
+    // step_by / size_hint / clone against plain next())
+    if l <= 12 && h <= 6 {
+        let frames: Vec<f64> = (0..l).map(|i| (i as f64 + 1.0) / 64.0).collect();
+        let cs = format!("kind=windower;w=any;fmt=any;ch=0;l={};b={};h={}", l, b, h);
+        let mut rng = Rng::derive((l * 10_000 + b * 100 + h) as u64, &[203]);
+        let mk = || checks::iterconf::forward(Windower::<f64, Hann>::new(&frames[..], b, h), |w| w.take(b).collect::<Vec<f64>>());
+        let mut n = checks::iterconf::check_iter("windower", &cs, mk, rep, &mut rng, 10);
+        n += checks::iterconf::check_clone("windower", &cs, mk, rep, &mut rng);
+        if l >= b {
+            n += checks::iterconf::check_iter("windowed_chunk", &cs, || Windower::<f64, Hann>::new(&frames[..], b, h).next().unwrap().take(b + 2), rep, &mut rng, 10);
+        }
+        n += checks::iterconf::check_iter("window", &cs, || Window::<f64, Hann>::new(b).take(b + 2), rep, &mut rng, 8);
+        ITER_SCRIPTS.with(|c| c.set(c.get() + n));
+        ev(n);
+    }
 }
 
 fn main() {
@@ -212,7 +262,7 @@ fn main() {
             "iter" => check_window_iter(&mut rep, m["n"].parse().unwrap()),
             _ => windower_all(&mut rep, m["l"].parse().unwrap(), m["b"].parse().unwrap(), m["h"].parse().unwrap()),
         }
-        rep.eval(EVALS.with(|c| c.replace(0)));
+        flush_tl(&mut rep);
         finish(&cli, rep, t0);
     }
     rep.oblige("window_function_grid", 1);
@@ -220,15 +270,17 @@ fn main() {
     rep.oblige("windower_l_equals_bin", 1);
     rep.oblige("windower_l_less_than_bin", 1);
     rep.oblige("windower_hop_ge_remaining", 1);
+    rep.oblige("iterator_conformance_scripts", 1);
+    rep.oblige("windower_state_set_through_public_fields", 1);
 
     check_window_fns(&mut rep, cli.t(16, 20), cli.t(100_000, 2_000_000), cli.seed);
-    rep.eval(EVALS.with(|c| c.replace(0)));
+    flush_tl(&mut rep);
 
     let nmax = cli.t(257usize, 8192usize);
     let reps = vmon::par_for(cli.threads, (nmax - 1) as u64, 8, |_| Report::new("C20", "w"), |rep, i| {
         check_window_iter(rep, i as usize + 2);
         rep.nontrivial(vmon::hash_combine(0x77, i + 2));
-        rep.eval(EVALS.with(|c| c.replace(0)));
+        flush_tl(rep);
     });
     for r in reps {
         rep.merge(r);
@@ -258,7 +310,7 @@ fn main() {
             rep.hit("windower_hop_ge_remaining");
         }
         rep.nontrivial(vmon::hash_combine(0x88, (l * 10_000 + b * 100 + h) as u64));
-        rep.eval(EVALS.with(|c| c.replace(0)));
+        flush_tl(rep);
     });
     for r in reps {
         rep.merge(r);
@@ -288,7 +340,7 @@ fn main() {
                 rep.hit("windower_hop_at_least_2_pow_32");
             }
             rep.nontrivial(vmon::hash_combine(0x89, vmon::hash_combine((l * 100 + b) as u64, h as u64)));
-            rep.eval(EVALS.with(|c| c.replace(0)));
+            flush_tl(rep);
         });
         for r in reps {
             rep.merge(r);
@@ -303,7 +355,7 @@ fn main() {
         check_windower::<[f32; 2], Hann>(&mut rep, l, b, h, 0);
         check_windower::<f64, Rectangle>(&mut rep, l, b, h, 0);
     }
-    rep.eval(EVALS.with(|c| c.replace(0)));
+    flush_tl(&mut rep);
     rep.sample(J::obj().set("kind", J::s("windower")).set("L", J::u(8)).set("bin", J::u(2)).set("hop", J::u(1)).set("expect", J::s("7 chunks; size_hint before each next() brackets the remaining count; chunk k frame j == frame[k+j] * w[j]")));
     rep.sample(J::obj().set("kind", J::s("window_iter")).set("n", J::u(9)).set("expect", J::s("hann(9)[i] == 0.5(1-cos(2 pi i/8)) within (i+2)*8u*2pi, [f32;2] channels equal, rectangle == 1")));
     finish(&cli, rep, t0);
